@@ -213,4 +213,5 @@ func checkC16(p *Program, r *Report) {
 	}
 	r.Floor("R16.2", "uses of conversion constants in models", uses, 3)
 	checkIdentities(p, r)
+	checkPathIdentities(p, r)
 }
